@@ -523,15 +523,18 @@ func TestVerifC38Drop(t *testing.T) {
 	r := vlib.Start(t, "C38")
 	c38RPMFamily(r)
 	c38PickDropFamily(r)
+	c38ConfigFamily(r)
 	r.Finish(vlib.Spec{
 		Level: "exploration",
 		Rule: "rpm: PRNG numerator/denominator (denominators 100/10^4/10^6 and arbitrary; numerators 0, 1, d-1, d, d+1, 2d, MaxUint32, around 2^32/10^6, random) through the real dropRequestsPerMillion + newDropper whose weighted selector is an exact enumerator: registered weights give exactly min(1,n/d) (to the millionth for inexact fractions) and the real dropper.drop() is driven over EVERY draw; distinct = (denominator class, numerator class, n*10^6 overflows uint32). " +
-			"pick-drop: 1..3 drop categories (incl. >100%) x child state {READY,CONNECTING,IDLE,TF} through the real picker.Pick over the WHOLE product space of the categories' random draws (odometer) with a recording load reporter: per-category drop counts exact, zero drops unless the child is READY, every undropped pick delegated; distinct = (child state, #categories, drop pattern, circuit breaker on)",
+			"pick-drop: 1..3 drop categories (incl. >100%) x child state {READY,CONNECTING,IDLE,TF} through the real picker.Pick over the WHOLE product space of the categories' random draws (odometer) with a recording load reporter: per-category drop counts exact, zero drops unless the child is READY, every undropped pick delegated; distinct = (child state, #categories, drop pattern, circuit breaker on). " +
+			"config: PRNG SEQUENCES of 5..10 configuration updates (drop categories added / removed / re-ordered / kept with a changed rate incl. 100%<->0% / kept unchanged / same rate with another denominator / duplicated names / replaced; max_requests set, unset, set to the in-flight count +-1; EDS service switched) pushed through the real clusterImplBalancer.handleClusterConfigLocked + newPickerLocked with RPCs admitted under older configurations still in flight; after EVERY update the whole product space of the picker's droppers is enumerated through picker.Pick and per-category and overall drop counts must equal the CURRENT configuration exactly, undropped picks are admitted iff in-flight < the CURRENT max_requests, the counter value is exact, and a changed configuration must request a new picker; distinct = (update kind, #categories, duplicate names, admits, RPCs in flight, max changed)",
 		Assumptions: []string{
 			"clusterimpl.NewRandomWRR (the package's documented test override) is replaced by an exact enumerating selector; exactness of the real weighted-random selector is decided by the internal/wrr step of this property",
 			"a fraction that is not a whole number of millionths may be rounded to either neighbouring millionth",
+			"config family: the picker is built by newPickerLocked after handleClusterConfigLocked (as UpdateClientConnState does); only its load reporter is replaced by a recorder",
 		},
-		Floor: 20,
+		Floor: 40,
 	})
 }
 
